@@ -38,6 +38,35 @@ def model_call(ctx, form, root="data"):
     return ctx.driver.call("controls.model", rows=rows, lists=lists, settings=settings, root=root)
 
 
+# the harness's own copy of the documented control element / media type per question type (XLSForm
+# reference table; independent of /repo on purpose, like formobs.CANON)
+DOCUMENTED = {
+    "text": ("input", None), "string": ("input", None), "integer": ("input", None), "int": ("input", None),
+    "decimal": ("input", None), "date": ("input", None), "time": ("input", None), "dateTime": ("input", None),
+    "note": ("input", None), "geopoint": ("input", None), "geotrace": ("input", None), "geoshape": ("input", None),
+    "barcode": ("input", None), "range": ("range", None), "acknowledge": ("trigger", None), "trigger": ("trigger", None),
+    "image": ("upload", "image/*"), "photo": ("upload", "image/*"), "audio": ("upload", "audio/*"),
+    "video": ("upload", "video/*"), "file": ("upload", "application/*"),
+    "select_one": ("select1", None), "select_multiple": ("select", None), "rank": ("odk:rank", None),
+}
+
+
+def documented_check(ctx, form, octl):
+    """Element name and media type of every observed control of a documented type, by the row's (unique) name."""
+    names = [r.get("name") for r in form["survey"] if r.get("name")]
+    by_name = {o[1].rsplit("/", 1)[-1]: o for o in octl if o[0] not in ("group", "repeat")}
+    for r in form["survey"]:
+        nm = r.get("name")
+        base = str(r.get("type", "")).split(" ")[0]
+        if nm in by_name and names.count(nm) == 1 and base in DOCUMENTED and not str(r.get("type", "")).startswith(("begin", "end")):
+            tag, _, a = by_name[nm]
+            dtag, dmt = DOCUMENTED[base]
+            mt = a.get("mediatype") if "body::mediatype" not in r else dmt
+            if tag != dtag or mt != dmt:
+                ctx.fail(Failure("documented-control", f"a {base!r} row renders as <{tag} mediatype={a.get('mediatype')!r}>, documented: "
+                                 f"<{dtag} mediatype={dmt!r}>", {"form": form}))
+
+
 def attr_str(a):
     return "{" + ", ".join(f"{k}={v!r}" for k, v in sorted(a.items())) + "}"
 
@@ -64,6 +93,7 @@ def form_case(ctx, form, family="structure"):
         else:
             # second half: the attributes of every body control (finite maps; `ref` / `nodeset` are the refs above)
             octl = formobs.observe_controls(r["xform"])
+            documented_check(ctx, form, octl)
             mattrs = [[t, dict(a)] for t, a in m["ctlAttrs"]]
             sattrs = [dict(a) for a in m["specAttrs"]]
             if not (len(octl) == len(mattrs) == len(sattrs)) or any(o[0] != x[0] for o, x in zip(octl, mattrs)):
@@ -100,10 +130,10 @@ ALL_SIMPLE = None
 
 def explore(ctx, factor, bs):
     rng = ctx.rng
-    n = ctx.pick(600, 20000) * factor
+    n = ctx.pick(1000, 20000) * factor
     import gen
     for i in range(n):
-        form = formcommon.structure_form(rng, tier_big=not ctx.quick())
+        form = formcommon.structure_form(rng, tier_big=not ctx.quick(), external_in_repeat=True)
         # layout noise that must vanish: blank rows, disabled rows
         if rng.random() < 0.3:
             rows = []
@@ -116,7 +146,7 @@ def explore(ctx, factor, bs):
             form["survey"] = rows
         form_case(ctx, form)
     import controls_gen
-    for i in range(ctx.pick(700, 20000) * factor):
+    for i in range(ctx.pick(1500, 20000) * factor):
         form_case(ctx, controls_gen.attr_form(rng, big=not ctx.quick()), family="attributes")
 
 
